@@ -694,9 +694,9 @@ val to_ascii_vec : dstr -> n list option
 
 val ds_to_string : dstr -> n list option
 
-val pack_be : dna -> n
+val pack_be : n list -> n
 
-val ds_of_dna : dna -> dstr
+val ds_of_dna : n list -> dstr
 
 val ds_inv : dstr -> bool
 
